@@ -419,7 +419,10 @@ class Expander:
             if ':fallback' in where:
                 r.features.add('nested-fallback-used')
             w = where if ':fallback' in where else where + ':fallback'
+            before = len(r.events)
             self.emit(fb.children, 'fallback:' + where.split(':')[0], w, depth)
+            if len(r.events) == before and r.events and r.events[-1][0] == 'SE':
+                r.features.add('include-replaced-by-nothing:first-child')
 
 
 def _has_include(e):
